@@ -1176,7 +1176,12 @@ func vmKnownNonNil(c *Ctx, info *types.Info, p *vmPath, e ast.Expr) bool {
 	e = ast.Unparen(e)
 	switch x := e.(type) {
 	case *ast.Ident:
-		return vmDecidedNonNil(info, p, x)
+		if vmDecidedNonNil(info, p, x) {
+			return true
+		}
+		// a local that holds a value known to be non-nil (`thrown := value.NewVMThrowInterrupt(…); return thrown`)
+		isNil, known := vmNilnessAt(c, info, p.binds, p.ev, len(p.ev), x)
+		return known && !isNil
 	case *ast.CallExpr:
 		f := CalleeOf(info, x)
 		return f != nil && vmNeverNil(c, f, map[*types.Func]bool{})
